@@ -312,10 +312,32 @@ func (a *Attempt) hook(point, dir, key string) {
 // event tagged with the attempt.
 func (a *Attempt) Logger() *slog.Logger {
 	if a.W.JSON {
-		return slog.New(slog.NewJSONHandler(jsonSink{a.W}, nil)).With("att", a.ID)
+		// both: the JSON handler the program uses (default level, every Write recorded) and the
+		// capturing handler the gate executor reads decisions from
+		return slog.New(teeHandler{&capHandler{a: a}, slog.NewJSONHandler(jsonSink{a.W}, nil).WithAttrs([]slog.Attr{slog.Int("att", a.ID)})})
 	}
 	return slog.New(&capHandler{a: a})
 }
+
+// teeHandler hands every record to both handlers (each filters by its own level).
+type teeHandler struct{ a, b slog.Handler }
+
+func (t teeHandler) Enabled(ctx context.Context, l slog.Level) bool {
+	return t.a.Enabled(ctx, l) || t.b.Enabled(ctx, l)
+}
+func (t teeHandler) Handle(ctx context.Context, r slog.Record) error {
+	if t.a.Enabled(ctx, r.Level) {
+		t.a.Handle(ctx, r.Clone())
+	}
+	if t.b.Enabled(ctx, r.Level) {
+		t.b.Handle(ctx, r.Clone())
+	}
+	return nil
+}
+func (t teeHandler) WithAttrs(as []slog.Attr) slog.Handler {
+	return teeHandler{t.a.WithAttrs(as), t.b.WithAttrs(as)}
+}
+func (t teeHandler) WithGroup(g string) slog.Handler { return teeHandler{t.a.WithGroup(g), t.b.WithGroup(g)} }
 
 // Start launches the Connect call in its own goroutine.
 func (a *Attempt) Start() {
